@@ -40,6 +40,51 @@ sys.exit(1 if bad else 0)
 '''
 
 
+REPLAY_WIRING = '''
+from vlib import build
+import os, tempfile, shutil, sys, glob
+import numpy as np
+drf = build.load_pkg()
+from digital_rf import mirror as MIR
+kw = %r
+method = ['copy', 'move', 'link'][kw.get('method', 0)]
+top = tempfile.mkdtemp(); src = top + '/s'; dst = top + '/d'; os.makedirs(src + '/ch/metadata'); os.makedirs(dst)
+w = drf.DigitalRFWriter(src + '/ch', 'i2', 3600, 1000, 10**10, 10, 1, 'u', is_complex=False)
+w.rf_write(np.arange(300, dtype='i2')); w.close()
+mw = drf.DigitalMetadataWriter(src + '/ch/metadata', 3600, 1, 10, 1, 'md')
+for k in range(3): mw.write(10**10 + 10 * k, {'v': k})
+rf0 = sorted(os.path.relpath(f, src) for f in glob.glob(src + '/ch/*/rf@*.h5'))
+md0 = sorted(os.path.relpath(f, src) for f in glob.glob(src + '/ch/metadata/*/md@*.h5'))
+props = ['ch/drf_properties.h5', 'ch/metadata/dmd_properties.h5']
+class NoObs:
+    def __init__(self, *a, **k): pass
+    def schedule(self, *a, **k): pass
+MIR.watchdog_drf.DirWatcher = NoObs
+inc_drf, inc_dmd = kw.get('include_drf', True), kw.get('include_dmd', True)
+m = MIR.DigitalRFMirror(src, dst, method=method, include_drf=inc_drf, include_dmd=inc_dmd)
+# what DigitalRFMirror.start() does for existing files (each event dispatched to the handlers in list order), with the metadata events
+# arriving newest-first (late events) and once repeated
+from watchdog.events import FileCreatedEvent
+for rel in props + rf0 + md0[::-1] + md0[::-1]:
+    ev = FileCreatedEvent(os.path.join(src, rel))
+    for h in m.event_handlers: h.dispatch(ev, match_time=False)
+bad = 0
+want = [p for p, on in ((props[0], inc_drf), (props[1], inc_dmd)) if on] + (rf0 if inc_drf else []) + (md0 if inc_dmd else [])
+for rel in want:
+    if not os.path.exists(os.path.join(dst, rel)): print('not mirrored:', rel); bad = 1
+for rel in (rf0 if not inc_drf else []) + (md0 if not inc_dmd else []):
+    if not os.path.exists(os.path.join(src, rel)): print('excluded file removed from the source:', rel); bad = 1
+    if os.path.exists(os.path.join(dst, rel)): print('excluded file mirrored:', rel); bad = 1
+for rel in props:
+    if not os.path.exists(os.path.join(src, rel)): print('properties file removed from the source:', rel); bad = 1
+if method != 'move':
+    for rel in rf0 + md0:
+        if not os.path.exists(os.path.join(src, rel)): print('source file removed in', method, 'mode:', rel); bad = 1
+shutil.rmtree(top)
+sys.exit(1 if bad else 0)
+'''
+
+
 def main(tier):
     rep = common.Report('C17', tier, 'model_checking', functions=FUNCS)
     st = smt.Stats()
@@ -47,5 +92,5 @@ def main(tier):
                '(both intermediate states observable)', 'event selection (kinds, window) is the C15 filter; deletion of old metadata files is the C16 ringbuffer')
     rep.outside_claim('watchdog threads and real inotify delivery', 'more than 3 events per file', 'crash of the mirror process between staging and rename (the stale tmp file is then handled by the next event)')
     res = chx.run_module('mirror', names=list(TITLES), per_condition_timeout=180 if tier == 'quick' else 900)
-    chx.report(rep, res, TITLES, replays={'_mirror_one': lambda kw: REPLAY % (kw,)}, sigs={'_mirror_one': 'C17.mirror_one', '_mirror_wiring': 'C17.wiring'})
+    chx.report(rep, res, TITLES, replays={'_mirror_one': lambda kw: REPLAY % (kw,), '_mirror_wiring': lambda kw: REPLAY_WIRING % (kw,)}, sigs={'_mirror_one': 'C17.mirror_one', '_mirror_wiring': 'C17.wiring'})
     return rep.finish()
